@@ -776,16 +776,20 @@ class Interp:
         return v
 
     # ------------------------------------------------------------------ execution
-    def run_body(self, body, args, generics=None):
+    def run_body(self, body, args, generics=None, start_bb="bb0", preset=None):
+        """start_bb / preset: region mode - execution starts at a basic block in the middle of the body with the
+        given locals pre-assigned (used for loops inside long-lived coroutines whose state is assembled by a driver)"""
         self.depth += 1
         if self.depth > 200:
             raise Unsupported("call depth")
         fr = Frame(body)
         for n, a in zip(body.params, args):
             fr.cells[n] = Cell(a, f"_{n}")
+        for n, a in (preset or {}).items():
+            fr.cells[n] = Cell(a, f"_{n}")
         if body.kind == "fn":
             self.called.add(body.name)
-        bb = "bb0"
+        bb = start_bb
         try:
             while True:
                 stmts, (term, tloc) = parsed_block(body, bb)
@@ -1310,7 +1314,10 @@ def int_binop(op, a, b, w, signed, is_bool=False):
         ov = z3.Or(z3.Not(z3.BVMulNoOverflow(A, B, signed)), z3.Not(z3.BVMulNoUnderflow(A, B)) if signed else z3.BoolVal(False))
         return Agg("tuple", [simp(A * B), simp(ov)])
     if op in ("Div", "Rem"):
-        raise Unsupported("symbolic division")
+        # rustc emits `assert(!(b == 0))` (and the MIN / -1 check for signed types) before the operation itself
+        if op == "Div":
+            return simp(A / B) if signed else simp(z3.UDiv(A, B))
+        return simp(z3.SRem(A, B)) if signed else simp(z3.URem(A, B))
     if op == "Cmp":
         raise Unsupported("symbolic three-way compare")
     raise Unsupported("binop " + op)
